@@ -7,7 +7,9 @@ import (
 	"io"
 	"net"
 	"strconv"
+	"syscall"
 	"time"
+	"unsafe"
 
 	"tunnox-core/internal/core/storage"
 	"tunnox-core/internal/protocol/session/crossnode"
@@ -70,14 +72,20 @@ func execPl(toks []string) string {
 			panic("pl: get: " + err.Error())
 		}
 		peer := accept()
+		want := 0
 		for _, e := range c.evs[:c.pre] {
 			if e.kind != "f" {
 				panic("pl: residual events must be frames")
 			}
 			fid, _ := crossnode.TunnelIDFromString(string(e.tid))
-			crossnode.WriteFrame(peer, fid, byte(e.ty), genBytes(e.n, e.seed))
+			if err := crossnode.WriteFrame(peer, fid, byte(e.ty), genBytes(e.n, e.seed)); err == nil {
+				want += crossnode.FrameHeaderSize + e.n
+			}
 		}
-		time.Sleep(2 * time.Millisecond) // the residual bytes have arrived before the connection goes idle
+		// the residual bytes have arrived before the connection goes idle: wait until the kernel reports
+		// them in the receive queue (a fixed sleep was not enough on a loaded machine: the probe then found
+		// nothing pending and the pool reused the connection — a false alarm of the correspondence)
+		waitArrived(c1.GetTCPConn(), want)
 		put(c1)
 		c2, err := get()
 		if err != nil {
@@ -94,6 +102,30 @@ func execPl(toks []string) string {
 		c.pre = 0
 		return su
 	})
+}
+
+// waitArrived polls FIONREAD until at least n bytes are queued on the socket (or 3 s passed).
+func waitArrived(t *net.TCPConn, n int) {
+	if t == nil || n <= 0 {
+		time.Sleep(2 * time.Millisecond)
+		return
+	}
+	rc, err := t.SyscallConn()
+	if err != nil {
+		time.Sleep(20 * time.Millisecond)
+		return
+	}
+	deadline := time.Now().Add(3 * time.Second)
+	for time.Now().Before(deadline) {
+		var q int32
+		rc.Control(func(fd uintptr) {
+			syscall.Syscall(syscall.SYS_IOCTL, fd, 0x541B /* FIONREAD */, uintptr(unsafe.Pointer(&q)))
+		})
+		if int(q) >= n {
+			return
+		}
+		time.Sleep(200 * time.Microsecond)
+	}
 }
 
 type closerFunc func() error
